@@ -144,7 +144,7 @@ Definition layout (k : kind) : list fld :=
 (* kinds whose encoding is zero-padded to a multiple of 8 bytes *)
 Definition align8 (k : kind) : bool :=
   match k with
-  | KMatch | KActSetField | KNxNat | KNxDecTtlCntIds | KNxLearn | KNxNote | KNxRegLoad2 => true
+  | KMatch | KActSetField | KNxNat | KNxDecTtlCntIds | KNxLearn | KNxNote | KNxRegLoad2 | KHelloElemBitmap => true
   | _ => false
   end.
 
